@@ -172,9 +172,10 @@ def check(prop, tier, seed):
         'functions_reached_in_anchor_files': {f: sum(1 for x in m['reach'] if x.startswith(f + ':'))
                                               for f in getattr(mod, 'ANCHOR_FILES', [])},
     })
-    for f in getattr(mod, 'ANCHOR_FILES', []):
-        if m['reach'] and not any(x.startswith(f + ':') for x in m['reach']):
-            reasons.append('no function of the anchored file %s was entered' % f)
+    # reach is evidence, not a verdict: a reorganisation may legitimately empty an anchored file; only a run
+    # that entered NO function of the package at all is inconclusive
+    if m['reach'] is not None and results and not m['reach']:
+        reasons.append('no function of the package under test was entered')
     if getattr(mod, 'EXHAUSTIVE', False):
         cov['exhaustive'] = True
     ev = {'property_id': prop, 'tier': tier, 'seed': seed, 'level': mod.LEVEL, 'coverage': cov,
